@@ -64,6 +64,7 @@ def build_traces(path, tier, seed):
         dict(tts=[0.125, 0.5, 0.75], ru=1.0, rd=0.5, stt=0.5, scalar=False),
         dict(tts=[0.25], ru=np.array([1.0]), rd=np.array([0.5]), stt=0.75, scalar=True),
         dict(tts=[0.0, 0.25, 0.5], ru=np.array([1.0, 0.5, 1.0]), rd=np.array([0.5, 1.0, 1.0]), stt=0.0, scalar=False),
+        dict(tts=[0.75, 0.0, 0.25], ru=1.0, rd=0.5, stt=0.5, scalar=False),          # travel times in no particular order
     ]
     for n in range(2, L + 1):
         for digits in itertools.product([-1.0, 0.0, 2.0], repeat=n):
@@ -95,6 +96,7 @@ def build_traces(path, tier, seed):
             tts = [float(rng.uniform(0, 5)) * dt for _ in range(k)]                  # fractional delays
         else:
             tts = [0.15, 0.3, 0.35][:k] if dt == 0.1 else [float(rng.integers(1, 40)) * 0.005 for _ in range(k)]   # 2*tt/dt a hair below an integer
+        tts = [float(t) for t in rng.permutation(tts)]                                # in no particular order
         nodal, trim, start = bool(rng.integers(2)), bool(rng.integers(2)), bool(rng.integers(2))
         if rng.integers(3) == 0:
             ru, rd = np.array(rng.uniform(0.3, 1.0, size=k)), np.array(rng.uniform(0.3, 1.0, size=k))
@@ -127,7 +129,7 @@ def build_traces(path, tier, seed):
         x = rng.standard_normal(n)
         dt = [0.5, 0.01, 0.02, 0.1][rix % 4]
         s = eqsig.AccSignal(x, dt)
-        batch = np.array([0.0, 0.3 * dt, 1.5 * dt, 3.0 * dt])
+        batch = np.array([0.0, 0.3 * dt, 1.5 * dt, 3.0 * dt])[[0, 1, 2, 3] if rix % 2 == 0 else [2, 3, 0, 1]]
         for nodal, trim, start in itertools.product([True, False], repeat=3):
             for stt in (0.0, dt, 2.5 * dt):
                 kw = dict(nodal=nodal, up_red=1.0, down_red=0.6, stt=stt, trim=trim, start=start)
